@@ -27,12 +27,13 @@ import (
 )
 
 type pend struct {
-	arr  int // arrival number at the peer
-	uid  string
-	sid  int16
-	rl   *reqLog
-	p    plan
-	next int
+	sentinel bool // the trailing request whose response is the barrier of an undrained-channel session
+	arr      int  // arrival number at the peer
+	uid      string
+	sid      int16
+	rl       *reqLog
+	p        plan
+	next     int
 }
 
 type ctlMsg struct {
@@ -248,15 +249,20 @@ func (p *peer) handle(f *frame.Frame) {
 		p.seenIDs[sid] = uid
 		n, _ := strconv.Atoi(uid[strings.IndexByte(uid, '-')+1:])
 		p.arrSeq++
-		p.pool = append(p.pool, &pend{arr: p.arrSeq, uid: uid, sid: sid, rl: rl, p: planOf(p.s.c.Seed, p.cfg, n)})
+		q := &pend{arr: p.arrSeq, uid: uid, sid: sid, rl: rl, p: planOf(p.s.c.Seed, p.cfg, n)}
+		if strings.HasSuffix(uid, "-s") {
+			q.sentinel, q.p = true, plan{Kind: kSetKeyspace, Pages: 1}
+		}
+		p.pool = append(p.pool, q)
 		p.poolLen.Store(int64(len(p.pool)))
 	default:
 		p.s.c.Count("peer_unexpected_request", 1)
 	}
 }
 
-func (p *peer) control(m ctlMsg) {
-	// what has been emitted so far precedes the barrier on the wire
+// settle records that everything emitted so far precedes the barrier (barrier event, or the
+// response to the sentinel request) on the wire.
+func (p *peer) settle() {
 	p.s.mu.Lock()
 	for _, rl := range p.s.order {
 		rl.mu.Lock()
@@ -267,6 +273,10 @@ func (p *peer) control(m ctlMsg) {
 	p.s.ev.mu.Lock()
 	p.s.ev.settled = len(p.s.ev.emitted)
 	p.s.ev.mu.Unlock()
+}
+
+func (p *peer) control(m ctlMsg) {
+	p.settle()
 	f, _ := eventFrame(p.v, -1, 'b', p.cfg.Index, m.barrier, m.barrier)
 	p.emit(f, false)
 	p.flush()
@@ -281,6 +291,9 @@ func (p *peer) answerOne() {
 			break
 		}
 	}
+	if q.sentinel {
+		p.settle()
+	}
 	q.next++
 	f, ntag := responseFrame(p.v, q.sid, q.uid, q.p, q.next, p.rnd)
 	q.rl.addExp(ntag) // logged before a single byte is written
@@ -292,6 +305,10 @@ func (p *peer) answerOne() {
 		delete(p.seenIDs, q.sid)
 	}
 	p.emit(f, true)
+	if q.sentinel {
+		p.flush()
+		return // nothing may follow the barrier
+	}
 	if p.nEv < p.cfg.MaxEvents && p.rnd.Intn(1000) < p.cfg.EventRate {
 		sid := int16(-1)
 		if len(p.pool) > 0 && p.rnd.Intn(4) == 0 {
